@@ -6,6 +6,8 @@ import (
 	"go/ast"
 	"go/types"
 	"strings"
+
+	"golang.org/x/tools/go/packages"
 )
 
 // Contracts checked by /verif/govc (see /verif/DESIGN.md). This file is compiled only with -tags verif.
@@ -56,6 +58,63 @@ func spec_nres(t *ast.FuncType) int {
 //@   loop 1 invariant len(funcResults) == len(old(funcResults))
 //@   loop 1 invariant forall j int :: 0 <= j && j < it1 ==> len(funcResults[j]) == len(old(funcResults)[j]) + len(funcResults2[j])
 //@   loop 1 invariant forall j int :: it1 <= j && j < len(funcResults) ==> eq(funcResults[j], old(funcResults)[j])
+
+// ---- the loaded universe mirrors the type checker's view (C13, C04, C06) ----
+
+// spec_scopeType / spec_scopeConst / spec_scopeFunc: the package-scope object of that name and kind (nil if none).
+func spec_scopeType(pkg *packages.Package, n string) *types.TypeName {
+	tn, _ := pkg.Types.Scope().Lookup(n).(*types.TypeName)
+	return tn
+}
+
+func spec_scopeConst(pkg *packages.Package, n string) *types.Const {
+	c, _ := pkg.Types.Scope().Lookup(n).(*types.Const)
+	return c
+}
+
+func spec_scopeFunc(pkg *packages.Package, n string) *types.Func {
+	f, _ := pkg.Types.Scope().Lookup(n).(*types.Func)
+	return f
+}
+
+func spec_pkgInfoOf(p Package) *pkgInfo { pi, _ := p.(*pkgInfo); return pi }
+
+//@ func newPkg
+//@   props C13 C04 C06
+//@   requires pkg != nil && pkg.Types != nil && pkg.Types.Scope() != nil && pkg.TypesInfo != nil && pkg.Fset != nil && u != nil
+//@   assume forall id *ast.Ident :: has(pkg.TypesInfo.Defs, id) && pkg.TypesInfo.Defs[id] != nil && pkg.TypesInfo.Defs[id].Parent() == pkg.Types.Scope() ==> pkg.Types.Scope().Lookup(pkg.TypesInfo.Defs[id].Name()) == pkg.TypesInfo.Defs[id]
+//@   assume forall n string :: pkg.Types.Scope().Lookup(n) != nil ==> pkg.Types.Scope().Lookup(n).Name() == n && pkg.Types.Scope().Lookup(n).Parent() == pkg.Types.Scope() && (exists id *ast.Ident :: has(pkg.TypesInfo.Defs, id) && pkg.TypesInfo.Defs[id] == pkg.Types.Scope().Lookup(n))
+//@   note (assume 1, 2) go/types: an object whose parent is the package scope is what Lookup(its name) returns; every package-scope object carries its own name, has the package scope as parent and is the Defs entry of its declaring identifier
+//@   ensures spec_pkgInfoOf(result) != nil && fresh(spec_pkgInfoOf(result)) && spec_pkgInfoOf(result).Package == pkg && spec_pkgInfoOf(result).u == u
+//@   ensures forall n string :: has(spec_pkgInfoOf(result).types, n) ==> spec_pkgInfoOf(result).types[n] != nil && spec_pkgInfoOf(result).types[n] == spec_scopeType(pkg, n)
+//@   ensures forall n string :: spec_scopeType(pkg, n) != nil ==> has(spec_pkgInfoOf(result).types, n)
+//@   ensures forall n string :: has(spec_pkgInfoOf(result).constants, n) ==> spec_pkgInfoOf(result).constants[n] != nil && spec_pkgInfoOf(result).constants[n] == spec_scopeConst(pkg, n)
+//@   ensures forall n string :: spec_scopeConst(pkg, n) != nil ==> has(spec_pkgInfoOf(result).constants, n)
+//@   ensures forall n string :: has(spec_pkgInfoOf(result).funcs, n) ==> spec_pkgInfoOf(result).funcs[n] != nil && spec_pkgInfoOf(result).funcs[n] == spec_scopeFunc(pkg, n)
+//@   ensures forall n string :: spec_scopeFunc(pkg, n) != nil ==> has(spec_pkgInfoOf(result).funcs, n)
+//@   loop 1 invariant p != nil && p.Package == pkg && p.u == u && p.types != nil && p.constants != nil && p.funcs != nil && p.methods != nil
+//@   loop 1 invariant forall n string :: has(p.types, n) ==> p.types[n] != nil && p.types[n] == spec_scopeType(pkg, n)
+//@   loop 1 invariant forall n string :: has(p.constants, n) ==> p.constants[n] != nil && p.constants[n] == spec_scopeConst(pkg, n)
+//@   loop 1 invariant forall n string :: has(p.funcs, n) ==> p.funcs[n] != nil && p.funcs[n] == spec_scopeFunc(pkg, n)
+//@   loop 1 invariant forall a int :: 0 <= a && a < it1 ==> spec_recorded(p, pkg, pkg.TypesInfo.Defs[ks1[a]])
+//@   note the name->object tables hold exactly the package-scope type names / constants / functions of the type checker, whatever order types.Info.Defs (a map) is iterated in (C04): a function-local declaration or a type parameter of the same name can never win
+
+// spec_recorded: a visited definition that is a package-scope type name / constant / function is in its table.
+func spec_recorded(p *pkgInfo, pkg *packages.Package, o types.Object) bool {
+	if o == nil || o.Parent() != pkg.Types.Scope() {
+		return true
+	}
+	if tn, ok := o.(*types.TypeName); ok {
+		return spec_has(p.types, tn.Name())
+	}
+	if c, ok := o.(*types.Const); ok {
+		return spec_has(p.constants, c.Name())
+	}
+	if f, ok := o.(*types.Func); ok {
+		return spec_has(p.funcs, f.Name())
+	}
+	return true
+}
 
 // ---- references (C15) ----
 
